@@ -459,7 +459,7 @@ impl NISPSignaturePoK {
         a_bases: &Bases,
         messages: &[CL03Message],
         unrevealed_message_indexes: &[usize],
-    ) -> (NISPSignaturePoK, CL03Commitment)
+    ) -> (NISPSignaturePoK, CL03Commitment, CL03Commitment)
     where
         CS::HashAlg: Digest,
     {
@@ -612,8 +612,13 @@ impl NISPSignaturePoK {
             Ce: C_Ce.value().clone(),
         };
 
-        // the opening of Ce is needed by the caller for the range proof on e; it is not part of the proof
-        (spok, C_Ce.cl03Commitment().clone())
+        // the opening of Ce is needed by the caller for the range proof on e, the opening of Cx to tie the per-attribute
+        // commitments to Cx; neither is part of the proof
+        (
+            spok,
+            C_Ce.cl03Commitment().clone(),
+            C_Cx.cl03Commitment().clone(),
+        )
     }
 
     pub(crate) fn nisp5_MultiAttr_verify_proof<CS: CLCiphersuite>(
